@@ -30,7 +30,7 @@ RULE = (
 )
 ASSUMPTIONS = ["failure reasons are the anticipated ones of the statement; undecodable input and other crashes are C16's subject"]
 
-REASONS = ["unencodable", "terminator", "terminator", "mirror-tail", "mirror-tail", "droplic", "dropcop", "dropboth", "cdroplic", "cdropcop", "cdropboth", "bad-existing", "unrecognised", "line-unsupported", "mutex", "missing-template", "none"]
+REASONS = ["unencodable", "terminator", "terminator", "mirror-tail", "mirror-tail", "fixedonly", "fixedonly", "droplic", "dropcop", "dropboth", "cdroplic", "cdropcop", "cdropboth", "bad-existing", "unrecognised", "line-unsupported", "mutex", "missing-template", "none"]
 
 
 def named_twins():
@@ -128,6 +128,9 @@ def check(ctx, c):
             terms = [t for t in terms if t]
             term = terms[0] if terms else "*/"
             holder = f"Jane {term} Doe"
+            if term == "}" and c.get("mirror_pick", 0) % 2:
+                # as many opening as closing braces, the closing one first: the comment still ends in the middle of the line
+                holder = ["Doe} and {Roe", "Jane }{ Doe"][c.get("mirror_pick", 0) // 2 % 2]
         if reason == "mirror-tail":
             # a holder whose tail, after a blank, mirrors a comment marker of one of the files' styles ('Example Team #' in a Python file):
             # the reader takes such a tail for an ASCII-art frame, so the tool has to refuse that file -- or write something that reads back whole
@@ -150,7 +153,7 @@ def check(ctx, c):
             args.append("--multi-line")
         if reason == "line-unsupported":
             args.append("--single-line" if c["multi"] else "--multi-line")
-        if reason in AN.DROPPING:
+        if reason in AN.DROPPING or reason == "fixedonly":
             args += ["--template", reason]
         if reason == "missing-template":
             args += ["--template", "does-not-exist"]
@@ -241,6 +244,17 @@ def check(ctx, c):
             fails = False
             if reason in AN.DROPPING or reason == "unencodable" or f.get("dotlicense_dir"):
                 fails = True
+            if reason == "fixedonly" and not f.get("dotlicense_dir"):
+                # the template states exactly the request and nothing else: fine for a target without information, information-dropping for
+                # one that declares something of its own (which has to be carried over when the header is replaced)
+                # (an existing header counts only where it is found, i.e. searched for in the style it is written in; elsewhere the
+                # new header is stacked on top and nothing is lost: not asserted)
+                if target_is_sibling:
+                    has = bool(f["dotlicense_exists"]) and len(f["name"]) % 3 != 0
+                    fails = (True if not forced else None) if has else False
+                else:
+                    own_style = f["style"] if f["style"] in S.STYLES else "python"
+                    fails = (True if (not forced or forced == own_style) else None) if f["existing"] == "good" else (None if f["existing"] == "bad" else False)
             if reason == "terminator" and stl and S.has_multi(stl) and term and term in holder:
                 uses_multi = multi_flag or not S.has_single(stl)
                 if uses_multi and S.STYLES[stl][1][2].strip() == term:
